@@ -527,6 +527,8 @@ def install(reg: Any = REGISTRY) -> None:
     reg.models["absbag"] = AbsBagModel()
     reg.models["pmap"] = PMapModel()
     reg.models["ctxvar"] = CtxVarModel()
+    from .io_model import install as _io
+    _io(reg)
     reg.models["slotdict"] = SlotDictModel()
     reg.models["handlers"] = HandlersModel()
     reg.models["bytes"] = BytesModel()
